@@ -6,12 +6,14 @@ import sys
 import tempfile
 
 HDR = '''from pymtl3 import *
+K2 = b2(3)
+K8 = b8(200)
 @bitstruct
 class S12:
   a: Bits4
   b: Bits8
 '''
-DECL = "s.a = InPort(Bits8); s.b = InPort(Bits4); s.c = InPort(Bits1); s.st = InPort(S12); s.x2 = InPort(Bits2); s.out = OutPort(Bits8); s.out2 = OutPort(Bits2); s.out16 = OutPort(Bits16); s.ost = OutPort(S12)"
+DECL = "KC = b2(2); KC4 = b4(9); s.x3 = InPort(Bits3); s.a = InPort(Bits8); s.b = InPort(Bits4); s.c = InPort(Bits1); s.st = InPort(S12); s.x2 = InPort(Bits2); s.out = OutPort(Bits8); s.out2 = OutPort(Bits2); s.out16 = OutPort(Bits16); s.ost = OutPort(S12)"
 
 
 def bodies():
@@ -31,7 +33,14 @@ def bodies():
         "s.out @= ~s.b", "s.out @= s.a + reduce_or(s.b)", "s.out2 @= s.x2 + s.c",
         "for i in range(6, 0, -2):\n        s.out2 @= s.x2 + i", "for i in range(0, 7, 2):\n        s.out2 @= s.x2 + i",
         "for i in range(5):\n        s.out2 @= s.x2 & i", "for i in range(8, 0, -4):\n        s.out2 @= s.x2 ^ i",
-        "t = s.a + s.a\n      s.out @= t & s.b", "t = s.st\n      s.out @= t"]
+        "t = s.a + s.a\n      s.out @= t & s.b", "t = s.st\n      s.out @= t",
+        # Bits-typed free variables (module-level and closure constants) are explicitly sized
+        "s.out @= zext(s.x3 == K2, 8)", "s.out @= s.a + K2", "s.out @= K2", "s.out2 @= K8", "s.out @= s.a & KC", "s.out @= KC4", "s.out @= zext(s.b < KC, 8)",
+        "s.out @= s.a if s.c else K2", "s.out2 @= s.x2 + K2", "s.out @= K8 + s.a", "s.out @= zext(s.x2 == KC, 8)",
+        # temporaries that are re-assigned: the last assignment decides the width
+        "t = 1\n      t = s.c\n      s.out @= t", "acc = 0\n      for i in range(4):\n        acc = acc ^ s.a[i]\n      s.out @= acc",
+        "t = 0\n      t = s.b\n      s.out @= t", "t = 3\n      if s.c:\n        t = s.x2\n      s.out @= zext(t, 8)", "t = s.b\n      t = t + 1\n      s.out @= t",
+        "t = 0\n      t = s.a\n      s.out @= t", "u = 1\n      u = s.c & s.c\n      s.out @= zext(u, 8) + u"]
   return B
 
 
